@@ -2,7 +2,7 @@ import json, os, subprocess
 from vlib import *
 
 
-def run_adapter_resilient(binpath, args, outdir, env, what, max_restarts=50):
+def run_adapter_resilient(binpath, args, outdir, env, what, max_restarts=100000):
     """run an executor adapter that may be killed by the node under test: a dead adapter = the node crashed
     while executing a block; the unfinished trace gets a synthetic Crashed event and the run resumes."""
     start, restarts = 0, 0
